@@ -88,3 +88,73 @@ func isIdent(e ast.Expr, name string) bool {
 	id, ok := e.(*ast.Ident)
 	return ok && id.Name == name
 }
+
+// freshBuffers reports whether every buffer the function fills (second
+// argument of io.ReadFull) or sends (argument of <x>.Write when checkWrite)
+// is an identifier that the same function defines with `:= make([]byte, ...)`
+// - not a slice of a pooled, shared or fixed-size buffer - and the function
+// uses no sync.Pool.
+func freshBuffers(fd *ast.FuncDecl, checkWrite bool) bool {
+	if fd == nil || fd.Body == nil {
+		return false
+	}
+	made := map[string]bool{}
+	ast.Inspect(fd.Body, func(n ast.Node) bool {
+		if as, ok := n.(*ast.AssignStmt); ok && as.Tok == token.DEFINE && len(as.Lhs) == 1 && len(as.Rhs) == 1 {
+			if c, ok := as.Rhs[0].(*ast.CallExpr); ok && calleeName(c) == "make" && len(c.Args) >= 2 && src(c.Args[0]) == "[]byte" {
+				made[src(as.Lhs[0])] = true
+			}
+		}
+		return true
+	})
+	ok := true
+	seen := 0
+	calls(fd.Body, func(c *ast.CallExpr) {
+		name := calleeName(c)
+		switch {
+		case name == "io.ReadFull" && len(c.Args) == 2:
+			seen++
+			if !made[src(c.Args[1])] {
+				ok = false
+			}
+		case checkWrite && strings.HasSuffix(name, ".Write") && len(c.Args) == 1:
+			seen++
+			if _, lit := c.Args[0].(*ast.CompositeLit); !lit && !made[src(c.Args[0])] {
+				ok = false
+			}
+		case strings.Contains(name, "Pool") || name == "recover":
+			ok = false
+		}
+	})
+	return ok && seen > 0
+}
+
+// structHasBufferField reports whether the named struct has a field of an
+// array or []byte type (scratch space shared by everything using the struct).
+func structHasBufferField(f *ast.File, name string) bool {
+	found := false
+	if f == nil {
+		return true
+	}
+	for _, d := range f.Decls {
+		gd, ok := d.(*ast.GenDecl)
+		if !ok {
+			continue
+		}
+		for _, sp := range gd.Specs {
+			ts, ok := sp.(*ast.TypeSpec)
+			if !ok || ts.Name.Name != name {
+				continue
+			}
+			if st, ok := ts.Type.(*ast.StructType); ok {
+				for _, fl := range st.Fields.List {
+					t := src(fl.Type)
+					if _, isArr := fl.Type.(*ast.ArrayType); isArr && (t == "[]byte" || !strings.HasPrefix(t, "[]")) {
+						found = true
+					}
+				}
+			}
+		}
+	}
+	return found
+}
